@@ -1,3 +1,4 @@
+import Driver.Decorator
 import Driver.Adapters
 import Driver.ContextManager
 import Driver.ExitStack
@@ -13,6 +14,7 @@ def dispatch (j : Json) : Except String Json := do
   | "tool" => Drv.Tools.run j
   | "contextmanager" => Drv.ContextManager.run j
   | "adapters" => Drv.Adapters.run j
+  | "decorator" => Drv.Decorator.run j
   | _ => throw s!"unknown machine {m}"
 
 partial def loop (h : IO.FS.Stream) (out : IO.FS.Stream) : IO Unit := do
